@@ -2,6 +2,7 @@ mod codec_drv;
 mod grid_drv;
 mod level_drv;
 mod model;
+mod mres_drv;
 mod queue_drv;
 mod sched;
 mod snap_drv;
@@ -59,6 +60,17 @@ fn main() {
             let mut lines = vec![];
             for sc in &scs {
                 lines.extend(codec_drv::run(sc));
+            }
+            write_lines(&args[3], &lines);
+            if args.len() > 4 {
+                std::fs::write(&args[4], "[]").unwrap();
+            }
+        }
+        "mres" => {
+            let scs = read_ndjson(&args[2]);
+            let mut lines = vec![];
+            for sc in &scs {
+                lines.extend(mres_drv::run(sc));
             }
             write_lines(&args[3], &lines);
             if args.len() > 4 {
